@@ -399,24 +399,23 @@ func runScript(sc Script, serial *sync.Mutex) []Ev {
 		}
 		opts = append(opts, exporterhelper.WithRetry(rc))
 	}
-	var start func(context.Context, component.Host) error
-	var shutdown func(context.Context) error
-	var send func(tags []string) error
 	prefix := ""
+	// build makes an exporter of the script's signal and configuration; ans scripts the backend, o are the options
+	build := func(ans func(tags []string) (string, []string), o []exporterhelper.Option) (start func(context.Context, component.Host) error,
+		shutdown func(context.Context) error, send func(tags []string) error, err error) {
 	switch cfg.Signal {
 	case "traces":
 		prefix = "spans"
 		e, err := exporterhelper.NewTraces(context.Background(), set, struct{}{}, func(_ context.Context, td ptrace.Traces) error {
 			tags := traceTags(td)
-			out, rem := r.answer(tags)
+			out, rem := ans(tags)
 			if rem != nil {
 				return consumererror.NewTraces(errT, mkTraces(rem))
 			}
 			return toErr(out)
-		}, opts...)
+		}, o...)
 		if err != nil {
-			r.log(Ev{Ev: "note", Text: "setup: " + err.Error()})
-			return r.evs
+			return nil, nil, nil, err
 		}
 		start, shutdown = e.Start, e.Shutdown
 		send = func(tags []string) error { return e.ConsumeTraces(context.Background(), mkTraces(tags)) }
@@ -424,15 +423,14 @@ func runScript(sc Script, serial *sync.Mutex) []Ev {
 		prefix = "metric_points"
 		e, err := exporterhelper.NewMetrics(context.Background(), set, struct{}{}, func(_ context.Context, md pmetric.Metrics) error {
 			tags := metricTags(md)
-			out, rem := r.answer(tags)
+			out, rem := ans(tags)
 			if rem != nil {
 				return consumererror.NewMetrics(errT, mkMetrics(rem))
 			}
 			return toErr(out)
-		}, opts...)
+		}, o...)
 		if err != nil {
-			r.log(Ev{Ev: "note", Text: "setup: " + err.Error()})
-			return r.evs
+			return nil, nil, nil, err
 		}
 		start, shutdown = e.Start, e.Shutdown
 		send = func(tags []string) error { return e.ConsumeMetrics(context.Background(), mkMetrics(tags)) }
@@ -440,18 +438,24 @@ func runScript(sc Script, serial *sync.Mutex) []Ev {
 		prefix = "log_records"
 		e, err := exporterhelper.NewLogs(context.Background(), set, struct{}{}, func(_ context.Context, ld plog.Logs) error {
 			tags := logTags(ld)
-			out, rem := r.answer(tags)
+			out, rem := ans(tags)
 			if rem != nil {
 				return consumererror.NewLogs(errT, mkLogs(rem))
 			}
 			return toErr(out)
-		}, opts...)
+		}, o...)
 		if err != nil {
-			r.log(Ev{Ev: "note", Text: "setup: " + err.Error()})
-			return r.evs
+			return nil, nil, nil, err
 		}
 		start, shutdown = e.Start, e.Shutdown
 		send = func(tags []string) error { return e.ConsumeLogs(context.Background(), mkLogs(tags)) }
+	}
+		return start, shutdown, send, nil
+	}
+	start, shutdown, send, err := build(r.answer, opts)
+	if err != nil {
+		r.log(Ev{Ev: "note", Text: "setup: " + err.Error()})
+		return r.evs
 	}
 	if err := start(context.Background(), host); err != nil {
 		r.log(Ev{Ev: "note", Text: "start: " + err.Error()})
@@ -562,8 +566,73 @@ func runScript(sc Script, serial *sync.Mutex) []Ev {
 		}
 	}
 	r.log(fin)
+	if store != nil && r.shutRet {
+		r.restart(store, host, opts, build)
+	}
 	_ = tel.Shutdown(context.Background())
 	return r.evs
+}
+
+// restart: a second incarnation of the exporter over the same storage, with a backend that accepts everything.  What the first
+// incarnation left stored "for the next start" must be exported now, and only after the user's (slow) start function returned.
+func (r *runner) restart(store *xh.Store, host component.Host, opts []exporterhelper.Option,
+	build func(func([]string) (string, []string), []exporterhelper.Option) (func(context.Context, component.Host) error, func(context.Context) error, func([]string) error, error)) {
+	want := storedTags(store, r.sc.Cfg.Signal)
+	r.log(Ev{Ev: "restart", Stored: append([]string{}, want...)})
+	store.Kill2Quiet()
+	store.NewIncarnation(0)
+	var mu sync.Mutex
+	got := map[string]bool{}
+	ans := func(tags []string) (string, []string) {
+		r.log(Ev{Ev: "r_push_start", Items: tags})
+		mu.Lock()
+		for _, t := range tags {
+			got[t] = true
+		}
+		mu.Unlock()
+		r.log(Ev{Ev: "r_push_end", Items: tags, Out: "ok"})
+		return "ok", nil
+	}
+	o := append(append([]exporterhelper.Option{}, opts...), exporterhelper.WithStart(func(context.Context, component.Host) error {
+		time.Sleep(15 * time.Millisecond) // a slow start: nothing may be exported before it has returned
+		r.log(Ev{Ev: "r_ustart_end"})
+		return nil
+	}), exporterhelper.WithShutdown(func(context.Context) error {
+		r.log(Ev{Ev: "r_ushutdown_begin"})
+		return nil
+	}))
+	start, shutdown, _, err := build(ans, o)
+	if err != nil {
+		r.log(Ev{Ev: "note", Text: "restart setup: " + err.Error()})
+		return
+	}
+	if err := start(context.Background(), host); err != nil {
+		r.log(Ev{Ev: "note", Text: "restart start: " + err.Error()})
+		return
+	}
+	for t0 := time.Now(); time.Since(t0) < 3*time.Second; time.Sleep(2 * time.Millisecond) {
+		mu.Lock()
+		all := true
+		for _, t := range want {
+			all = all && got[t]
+		}
+		mu.Unlock()
+		if all {
+			break
+		}
+	}
+	done := make(chan struct{})
+	go func() { _ = shutdown(context.Background()); close(done) }()
+	select {
+	case <-done:
+	case <-time.After(20 * time.Second):
+		r.log(Ev{Ev: "note", Text: "restart: shutdown did not return"})
+	}
+	left := storedTags(store, r.sc.Cfg.Signal)
+	if left == nil {
+		left = []string{}
+	}
+	r.log(Ev{Ev: "r_final", Stored: left})
 }
 
 func main() {
